@@ -65,6 +65,12 @@ def strByte0Is (s : Str) (c : Char) : Option Bool :=
   | [] => none
   | x :: _ => some (x == c)
 
+/-- `strings.TrimLeft(s, cutset)` -/
+def trimLeftCutset (s cutset : Str) : Str := s.dropWhile (fun c => cutset.contains c)
+
+/-- `%x` of a byte slice: two lower-case hex digits per byte -/
+def hexBytes (b : Bytes) : Str := b.flatMap hexByte
+
 /-- `strings.TrimPrefix` -/
 def trimPrefix (s p : Str) : Str :=
   if p.isPrefixOf s then s.drop p.length else s
